@@ -187,12 +187,19 @@ Plan genCodec(const std::string& prop, int tier, uint64_t batchSeed, uint64_t id
             nMsg = r.chance(1, 6) ? 13 + r.below(28) : 1 + r.below(12);
         else
             nMsg = 1 + r.below(12);
+        const bool swarmOfTiny = !wrapRun && !c09 && r.chance(1, 40);  // > 127 / > 255 messages in one frame
+        if (swarmOfTiny)
+        {
+            nMsg = 120 + r.below(200);
+            maxB = r.pick<int64_t>({9000, 65559});
+            minB = r.chance(1, 2) ? 0 : r.range(0, maxB);
+        }
         if (c10 && o + 1 == nOps && nMsg == 0)
             nMsg = 1;
         // estimate frames to keep runs short
         const int64_t per = maxB - 24;
         int64_t maxFramesPerMsg = std::max<int64_t>(3, (frameBudget - framesSoFar) / std::max<size_t>(1, nMsg) / 2);
-        maxFramesPerMsg = std::min<int64_t>(maxFramesPerMsg, tier ? 400 : 150);
+        maxFramesPerMsg = std::min<int64_t>(maxFramesPerMsg, tier ? 400 : (r.chance(1, 20) ? 300 : 150));  // sometimes more than 255 segments
         std::vector<Item> msgs;
         int64_t freeBytes = -1;
         int64_t estFrames = 0;
@@ -211,6 +218,14 @@ Plan genCodec(const std::string& prop, int tier, uint64_t batchSeed, uint64_t id
             else
             {
                 g.fillMsg(m, kinds, maxB, freeBytes, maxFramesPerMsg);
+                if (swarmOfTiny)
+                    m.set("kind", 0).set("len", r.range(1, 4)).set("mtype", 1).set("ptype", 0x20);
+                if (!msgs.empty() && r.chance(1, 10))
+                {
+                    // same header fields as the previous message (only the content differs)
+                    for (const char* k : {"ts", "ifid", "flags"})
+                        m.set(k, msgs.back().get(k));
+                }
                 const int64_t L = m.get("len");
                 // track the room left in the current frame like the reference packer does
                 int mt = static_cast<int>(m.has("mtype") && m.get("kind") == 0 ? m.get("mtype") : (m.get("kind") >= 0x31 ? 3 : 1));
@@ -235,7 +250,7 @@ Plan genCodec(const std::string& prop, int tier, uint64_t batchSeed, uint64_t id
         framesSoFar += estFrames;
         Item& op = g.addOp(OP_ENC, node, estFrames);
         op.set("min", minB).set("max", maxB);
-        op.set("ver", r.chance(1, 2) ? 1 : r.range(1, 255));
+        op.set("ver", r.chance(1, 2) ? 1 : (r.chance(1, 4) ? r.pick<int64_t>({0x7F, 0x80, 0xFE, 0xFF}) : r.range(1, 255)));
         op.set("mode", static_cast<int64_t>(r.below(4)));
         op.sub = std::move(msgs);
     }
@@ -272,7 +287,10 @@ Plan genReasm(const std::string& prop, int tier, uint64_t batchSeed, uint64_t id
         nodeType[i] = (withCm && r.chance(1, 2)) ? 1 : 2;
         Item& n = g.addNode(static_cast<int>(i + 1), nodeType[i], eps[i].first, eps[i].second);
         if (nodeType[i] == 2)
-            n.set("ctr0", r.chance(3, 10) ? r.range(65530, 65535) : static_cast<int64_t>(r.below(65536)));
+        {
+            const int64_t edge = r.pick<int64_t>({0x10000, 0x10000, 0x8000, 0x100, 0x7F00, 0xFF00});
+            n.set("ctr0", r.chance(4, 10) ? (edge - 1 - static_cast<int64_t>(r.below(r.chance(1, 2) ? 6 : 40)) + 0x10000) % 0x10000 : static_cast<int64_t>(r.below(65536)));
+        }
         // slow links with large gaps produce deep interleavings
         if (r.chance(1, 2))
             n.set("gap", r.pick<int64_t>({5, 17, 40, 100}));
@@ -337,7 +355,7 @@ Plan genReasm(const std::string& prop, int tier, uint64_t batchSeed, uint64_t id
                 nseg = 3;
                 break;
             case 2:
-                nseg = static_cast<int>(tier && r.chance(1, 3) ? r.range(254, 258) : r.range(2, maxSeg));
+                nseg = static_cast<int>((tier ? r.chance(1, 3) : r.chance(1, 12)) ? r.range(254, 258) : r.range(2, maxSeg));
                 break;
             default:
                 nseg = static_cast<int>(r.range(2, 8));
@@ -345,8 +363,11 @@ Plan genReasm(const std::string& prop, int tier, uint64_t batchSeed, uint64_t id
         }
         std::vector<Item> segs;
         int64_t total = 0;
-        const int sizeClass = static_cast<int>(r.below(5));
-        const int64_t fill = r.pick<int64_t>({1, 8, 76, 1476, 40});
+        int sizeClass = static_cast<int>(r.below(6));
+        const int64_t fill = r.pick<int64_t>({1, 8, 76, 1476, 40, 255, 256});
+        const int64_t targetTotal = r.pick<int64_t>({32767, 32768, 32769, 65534, 65535, 255, 256, 4096});
+        if (sizeClass == 5 && nseg > 40)
+            sizeClass = 0;
         for (int k = 0; k < nseg; ++k)
         {
             Item s("s");
@@ -365,6 +386,10 @@ Plan genReasm(const std::string& prop, int tier, uint64_t batchSeed, uint64_t id
                 case 3:
                     len = r.logRange(0, 4000);
                     break;  // unequal
+                case 5:
+                    // the total lands exactly on a 15/16-bit boundary
+                    len = k + 1 == nseg ? targetTotal - total : std::min<int64_t>(targetTotal - total, r.range(0, 2 * targetTotal / nseg));
+                    break;
                 default:
                     len = r.range(0, 3);
                     break;
@@ -380,7 +405,7 @@ Plan genReasm(const std::string& prop, int tier, uint64_t batchSeed, uint64_t id
             segs.push_back(std::move(s));
         }
         Item& op = g.addOp(OP_RAWSEG, node, nseg);
-        op.set("ver", r.chance(1, 2) ? 1 : r.range(1, 255));
+        op.set("ver", r.chance(1, 2) ? 1 : (r.chance(1, 4) ? r.pick<int64_t>({0x7F, 0x80, 0xFE, 0xFF}) : r.range(1, 255)));
         int kindSel = static_cast<int>(r.below(6));
         if (kindSel == 0)
             op.set("mtype", 3).set("ptype", r.pick<int64_t>({3, 4, 0xFF}));
